@@ -238,10 +238,20 @@ Fixpoint spec_read_freqs0 (fuel : nat) (bs : list N) (sym last rle : N) (F : lis
     end
   end.
 
-Definition spec_read_frequencies0 (bs : list N) : option (list N * list N) :=
+Definition spec_read_frequencies0_raw (bs : list N) : option (list N * list N) :=
   match bs with
   | [] => None
   | sym :: r => spec_read_freqs0 (S (length bs)) r sym sym 0 zeros256
+  end.
+
+(* The state carries the cumulative frequency in 12 bits, so a conforming table adds up to at most
+   4096 (the encoder normalises to 4095).  A larger total is rejected when the table is read -- as
+   the repaired noodles decoder does (8832bc0: validate_frequencies -> InvalidData, for order 1 on
+   each context's table); with the total bounded RansAdvanceStep cannot leave 32 bits. *)
+Definition spec_read_frequencies0 (bs : list N) : option (list N * list N) :=
+  match spec_read_frequencies0_raw bs with
+  | None => None
+  | Some (F, r) => if 4096 <? sumN F then None else Some (F, r)
   end.
 
 Definition take4_le32 (bs : list N) : option (list N * list N) :=
